@@ -7,6 +7,7 @@ import (
 	"errors"
 	"fmt"
 	"sort"
+	"strconv"
 	"strings"
 	"sync"
 
@@ -748,4 +749,142 @@ func CPre(pre []PreTable) string {
 		}
 	}
 	return "(Build_catalog [" + strings.Join(ts, "; ") + "] [" + strings.Join(is, "; ") + "])"
+}
+
+// ---------------------------------------------------------------- huge arrays
+
+// HugeObs: one log whose selected uint256[] carries n elements, inserted twice.
+type HugeObs struct {
+	N          int
+	AbiType    string // "" = the int2 column AddRequiredFields adds, else the user-declared type
+	Rows       int    // rows handed to COPY by the first insert
+	R1, R2     string // outcome classes
+	E1         string
+	Problems   []string // direct-oracle findings
+	OutOfRange bool     // first insert failed with 22003 (abi_idx beyond the column type)
+}
+
+// RunHuge builds the log with the encoder, runs ValidateFix/Migrate/Insert
+// twice against the strict fake and judges by the direct oracle only: row i
+// carries abi_idx i, the projections of the rows to the unique key in force
+// are pairwise different, the second insert collides.
+func RunHuge(n int, abiType string) (o HugeObs) {
+	o.N, o.AbiType = n, abiType
+	conf := shconfig.Root{Sources: []shconfig.Source{{Name: "main", ChainID: 1, URLs: []string{"http://127.0.0.1:8545"}}}}
+	ig := shconfig.Integration{Name: "big", Enabled: true, Sources: []shconfig.Source{{Name: "main"}}}
+	ig.Table = wpg.Table{Name: "big_t", Columns: []wpg.Column{{Name: "v", Type: "numeric"}}}
+	if abiType != "" {
+		ig.Table.Columns = append(ig.Table.Columns, wpg.Column{Name: "abi_idx", Type: abiType})
+	}
+	ig.Event = dig.Event{Name: "Big", Type: "event", Inputs: []dig.Input{{Name: "v", Type: "uint256[]", Column: "v"}}}
+	conf.Integrations = []shconfig.Integration{ig}
+	if err := shconfig.ValidateFix(&conf); err != nil {
+		o.Problems = append(o.Problems, "rejected: "+err.Error())
+		return
+	}
+	ig = conf.Integrations[0]
+	f := NewFake(false)
+	f.KeepCopy = true
+	if err := shconfig.Migrate(context.Background(), f, conf); err != nil {
+		o.Problems = append(o.Problems, "migration failed: "+err.Error())
+		return
+	}
+	// the log: offset, length, n words (element i = i+1)
+	data := make([]byte, 0, 64+32*n)
+	data = append(data, word(32)...)
+	data = append(data, word(uint64(n))...)
+	for i := 0; i < n; i++ {
+		data = append(data, word(uint64(i+1))...)
+	}
+	blk := eth.Block{Header: eth.Header{Number: 77, Hash: make([]byte, 32), Parent: make([]byte, 32)}}
+	tx := eth.Tx{Idx: 2, PrecompHash: make([]byte, 32)}
+	tx.Logs = eth.Logs{{Idx: 5, Address: make([]byte, 20), Topics: []eth.Bytes{ig.Event.SignatureHash()}, Data: data}}
+	blk.Txs = eth.Txs{tx}
+	dest, err := dig.New(ig.Name, ig.Event, ig.Block, ig.Table, ig.Notification, ig.FilterAGG)
+	if err != nil {
+		o.Problems = append(o.Problems, "dig.New: "+err.Error())
+		return
+	}
+	ctx := taskCtx(conf.Sources[0], ig.Name)
+	var mut sync.Mutex
+	n1, e1 := dest.Insert(ctx, &mut, f, copyBlocks([]eth.Block{blk}))
+	cols, rows := f.LastCols, f.LastRows
+	o.Rows = len(rows)
+	o.R1 = classify(n1, e1)
+	if e1 != nil {
+		o.E1 = e1.Error()
+		var pe *pgconn.PgError
+		o.OutOfRange = errors.As(e1, &pe) && pe.Code == "22003"
+	}
+	n2, e2 := dest.Insert(ctx, &mut, f, copyBlocks([]eth.Block{blk}))
+	o.R2 = classify(n2, e2)
+	// direct oracle on the rows Insert produced
+	if len(rows) != n {
+		o.Problems = append(o.Problems, fmt.Sprintf("%d rows for %d array elements", len(rows), n))
+	}
+	abiCol := -1
+	for i, c := range cols {
+		if c == "abi_idx" {
+			abiCol = i
+		}
+	}
+	if abiCol < 0 {
+		o.Problems = append(o.Problems, "no abi_idx column is written")
+		return
+	}
+	bad := 0
+	for i, r := range rows {
+		if v, ok := IntOf(r[abiCol]); !ok || v != int64(i) {
+			if bad == 0 {
+				o.Problems = append(o.Problems, fmt.Sprintf("row %d carries abi_idx %v", i, r[abiCol]))
+			}
+			bad++
+		}
+	}
+	if bad > 1 {
+		o.Problems = append(o.Problems, fmt.Sprintf("%d rows carry an abi_idx different from their position", bad))
+	}
+	// projections to the unique key in force, pairwise different
+	var key []int
+	if ix, ok := f.Indexes["u_big_t"]; ok {
+		for _, k := range ix.Cols {
+			for i, c := range cols {
+				if c == k {
+					key = append(key, i)
+				}
+			}
+		}
+		if len(key) != len(ix.Cols) {
+			o.Problems = append(o.Problems, "a key column is not written")
+		}
+	} else {
+		o.Problems = append(o.Problems, "no unique index u_big_t")
+	}
+	seen := make(map[string]int, len(rows))
+	var kb []byte
+	for i, r := range rows {
+		kb = kb[:0]
+		for _, j := range key {
+			if v, ok := IntOf(r[j]); ok {
+				kb = strconv.AppendInt(kb, v, 10)
+			} else {
+				kb = append(kb, Canon(r[j])...)
+			}
+			kb = append(kb, 1)
+		}
+		if j, dup := seen[string(kb)]; dup {
+			o.Problems = append(o.Problems, fmt.Sprintf("rows %d and %d of one log share the unique key (abi_idx %v and %v)", j, i, rows[j][abiCol], r[abiCol]))
+			break
+		}
+		seen[string(kb)] = i
+	}
+	switch {
+	case o.OutOfRange:
+		// abi_idx beyond the declared column type: Postgres refuses the COPY (observation, see design.d/C16.md)
+	case !strings.HasPrefix(o.R1, "(CopyOk"):
+		o.Problems = append(o.Problems, "first insert failed: "+o.E1)
+	case o.R2 != "CopyDup":
+		o.Problems = append(o.Problems, "re-insert of the same log did not hit the unique index: "+o.R2)
+	}
+	return
 }
